@@ -244,12 +244,40 @@ def tolerant_end(sub):
                 ok = check_seq(av[3], sibling_blank) and ok
             elif op is Cn.BRANCH:
                 alts = av[1]
-                blanky = any(rex.items(a) and (_first_is_blank(rex.items(a)[0])) for a in alts)
+                blanky = any(rex.items(a) and (_first_is_blank(rex.items(a)[0])) and _rest_ok_at_end(rex.items(a)[1:]) for a in alts)
                 for a in alts:
                     ok = check_seq(a, sibling_blank or blanky) and ok
             elif op in rex.REPEATS:
                 ok = check_seq(av[2], sibling_blank) and ok
         return ok
+
+    def _rest_ok_at_end(rest):
+        """can the items after the blank run match the empty remainder (blanks were the last
+        characters of the text)?  `(?!\\W)` holds at the end of the text, `(?=\\w)` does not."""
+        for op, av in rest:
+            if op is Cn.AT:
+                if av in (Cn.AT_END, Cn.AT_END_STRING, Cn.AT_BOUNDARY, Cn.AT_NON_BOUNDARY):
+                    continue
+                return False
+            if op is Cn.ASSERT_NOT:
+                # negative look-ahead of something that needs a character: true at the end
+                _, nullable = rex.first_chars(av[1], False)
+                if av[0] == 1 and not nullable:
+                    continue
+                return False
+            if op is Cn.ASSERT:
+                _, nullable = rex.first_chars(av[1], False)
+                if av[0] == 1 and nullable:
+                    continue
+                return False  # a look-ahead that needs a character fails at the end of the text
+            if op in rex.REPEATS and av[0] == 0:
+                continue
+            if op is Cn.SUBPATTERN:
+                if _rest_ok_at_end(rex.items(av[3])):
+                    continue
+                return False
+            return False
+        return True
 
     def _first_is_blank(item):
         op, av = item
